@@ -260,12 +260,7 @@ def cmd (st : St) : P (St × String) := do
     | none => failure
     | some c =>
       let probs := ",".intercalate (c.probs.map fun p => s!"{p.1}:{p.2}")
-      pure ({ st with fcfg := c }, s!"faults={SimFaultTable.allFaults.length} en={if c.enabled then 1 else 0} mult={c.mult} probs={probs}")
-  | "FNAME" =>
-    let i ← nat
-    match SimFaultTable.allFaults[i]? with
-    | some n => pure (st, n)
-    | none => failure
+      pure ({ st with fcfg := c }, s!"en={if c.enabled then 1 else 0} mult={c.mult} probs={probs}")
   | "FSET" =>
     let id ← nat
     let bits ← nat
